@@ -4,6 +4,9 @@ import json
 
 BASELINE_OFF = "cd /repo && GOFLAGS=-mod=mod GOPROXY=off GOSUMDB=off go test -json -vet=off -count=1 -timeout 25m ./..."
 
+TB = ("Trusted: Lean kernel (axioms ⊆ propext, Classical.choice, Quot.sound, audited per theorem on every run), Lean compiler for running "
+      "validators/models, the Go correspondence harness (generator quality bounds what the tie sees), go toolchain.")
+
 CLAIMED = {
     # id: (level, text, note, technique, design_ref)
     "C01": ("proof",
